@@ -12,6 +12,8 @@ anchored code of the path machinery:
                                must be guarded by safe_float / `is None`)
   do_h                      -> checked to be `if self.curpath and self.curpath[-1][0] == "h": return; append(("h",))`
   do_cm                     -> cmPremultiplies (`mult_matrix(matrix, self.ctm)` vs `mult_matrix(self.ctm, matrix)`)
+  _initial_color            -> initNoneFamily, initMaxComponents, initCmykFamily, initCmyk, initOneFamilies
+                               (the constants of the straight-line code; its shape is checked)
   do_W do_W_a               -> checked to have an empty body (docstring only): clipping does not paint
   converter.PDFLayoutAnalyzer.paint_path (the straight-line tests of the single-sub-path branch):
       `len(shape) > K and shape[-N:] == S and pts[-i] == pts[j]`, `shape = shape[:-M] + T; pts.pop()`
@@ -498,6 +500,54 @@ def cm_order(fn: ast.FunctionDef) -> bool:
     return pre
 
 
+def initial_color(fn: ast.FunctionDef) -> str:
+    """`_initial_color`: n = cs.ncomponents; if cs.name == P or not isinstance(n, int) or n < 1 or n > K: return None;
+    if cs.name == C: return (..); v = 1.0 if cs.name in (..) else 0.0; if n == 1: return v; return tuple([v] * n)"""
+    b = body_wo_doc(fn)
+    if len(b) != 6 or ast.unparse(b[0]) != "n = cs.ncomponents":
+        raise P.Untranslatable("_initial_color: unexpected shape")
+    t = b[1]
+    if not (isinstance(t, ast.If) and not t.orelse and ast.unparse(t.body[-1]) == "return None" and
+            isinstance(t.test, ast.BoolOp) and isinstance(t.test.op, ast.Or) and len(t.test.values) == 4):
+        raise P.Untranslatable("_initial_color: first test")
+    v0, v1, v2, v3 = t.test.values
+    if not (isinstance(v0, ast.Compare) and ast.unparse(v0.left) == "cs.name" and isinstance(v0.ops[0], ast.Eq) and
+            isinstance(v0.comparators[0], ast.Constant) and isinstance(v0.comparators[0].value, str) and
+            ast.unparse(v1) == "not isinstance(n, int)" and ast.unparse(v2) == "n < 1" and
+            isinstance(v3, ast.Compare) and _name(v3.left, "n") and isinstance(v3.ops[0], ast.Gt) and
+            _int(v3.comparators[0]) is not None and _int(v3.comparators[0]) >= 1):
+        raise P.Untranslatable("_initial_color: not `cs.name == P or not isinstance(n, int) or n < 1 or n > K`")
+    none_family, kmax = v0.comparators[0].value, _int(v3.comparators[0])
+    c = b[2]
+    if not (isinstance(c, ast.If) and not c.orelse and len(c.body) == 1 and isinstance(c.body[0], ast.Return) and
+            isinstance(c.body[0].value, ast.Tuple) and isinstance(c.test, ast.Compare) and
+            ast.unparse(c.test.left) == "cs.name" and isinstance(c.test.ops[0], ast.Eq) and
+            isinstance(c.test.comparators[0], ast.Constant) and
+            all(isinstance(x, ast.Constant) and isinstance(x.value, float) and x.value == int(x.value)
+                for x in c.body[0].value.elts)):
+        raise P.Untranslatable("_initial_color: CMYK branch")
+    cmyk_family = c.test.comparators[0].value
+    cmyk = [int(x.value) for x in c.body[0].value.elts]
+    a = b[3]
+    if not (isinstance(a, ast.Assign) and _name(a.targets[0], "v") and isinstance(a.value, ast.IfExp) and
+            ast.unparse(a.value.body) == "1.0" and ast.unparse(a.value.orelse) == "0.0" and
+            isinstance(a.value.test, ast.Compare) and ast.unparse(a.value.test.left) == "cs.name" and
+            isinstance(a.value.test.ops[0], ast.In) and isinstance(a.value.test.comparators[0], (ast.Tuple, ast.Set, ast.List))
+            and all(isinstance(x, ast.Constant) and isinstance(x.value, str) for x in a.value.test.comparators[0].elts)):
+        raise P.Untranslatable("_initial_color: not `v = 1.0 if cs.name in (...) else 0.0`")
+    ones = [x.value for x in a.value.test.comparators[0].elts]
+    if ast.unparse(b[4]) != "if n == 1:\n    return v" or \
+            ast.unparse(b[5]) not in ("return cast(Color, tuple([v] * n))", "return tuple([v] * n)"):
+        raise P.Untranslatable("_initial_color: tail is not `if n == 1: return v; return tuple([v] * n)`")
+    return ("/-- `_initial_color`: no colour for `initNoneFamily` and for n < 1 or n > initMaxComponents;\n"
+            "`initCmyk` for `initCmykFamily`; n ones for `initOneFamilies`, n zeros otherwise. -/\n"
+            f"def initNoneFamily : String := {P.lean_string(none_family)}\n"
+            f"def initMaxComponents : Nat := {kmax}\n"
+            f"def initCmykFamily : String := {P.lean_string(cmyk_family)}\n"
+            f"def initCmyk : List Rat := [{', '.join(str(x) for x in cmyk)}]\n"
+            f"def initOneFamilies : List String := [{', '.join(P.lean_string(x) for x in ones)}]\n\n")
+
+
 def generate(lean_dir: str):
     out = [P.HEADER.format(src="pdfminer/utils.py, pdfcolor.py, pdfinterp.py, converter.py", ns="PathsGen")]
     # --- matrix helpers
@@ -563,6 +613,7 @@ def generate(lean_dir: str):
     out.append("/-- `do_h` appends `(\"h\",)` unless the path already ends in `h`. -/\ndef hIdempotent : Bool := true\n\n")
     out.append("/-- `do_cm`: `self.ctm = mult_matrix(matrix, self.ctm)` (true) or `mult_matrix(self.ctm, matrix)` (false). -/\n"
                f"def cmPremultiplies : Bool := {str(cm_order(methods['do_cm'])).lower()}\n\n")
+    out.append(initial_color(methods["_initial_color"]))
     for w in ("do_W", "do_W_a"):
         if w not in methods or body_wo_doc(methods[w]) not in ([],) and \
                 not all(isinstance(x, ast.Pass) for x in body_wo_doc(methods[w])):
